@@ -119,8 +119,8 @@ def build(tier="quick", seed=0):
         pack.add(Obligation(name, lambda tier, name=name, t=t, lo=lo, hi=hi: prove_paths(name, one(t, lambda: (it.assume(z3.And(x >= lo, x <= hi)), SInt(x))[1]), judge_same, lambda m_, p: {"x": model_value(m_, x)}),
                             replay=lambda w, t=t: {"call": "c19_value", "args": {"ftype": t, "src": repr(w.get("x", 0) if isinstance(w.get("x"), int) else 0)}}, functions=FU))
     for t in ("string", "wstring", "uri"):
-        name = f"C19.type[{t}, any text]"
-        pack.add(Obligation(name, lambda tier, name=name, t=t: prove_paths(name, one(t, lambda: SStr(sv)), judge_same, lambda m_, p: {"s": model_value(m_, sv)}), replay=lambda w, t=t: {"call": "c19_value", "args": {"ftype": t, "src": repr(w.get("s", "") if isinstance(w.get("s"), str) else "")}}, functions=FU))
+        name = f"C19.type[{t}, any text]"  # (text that has no UTF-8 form - a lone surrogate - is REFUSED with UnicodeEncodeError: written as it is or refused, see also C19.refuse.carry_on[text ...])
+        pack.add(Obligation(name, lambda tier, name=name, t=t: prove_paths(name, one(t, lambda: SStr(sv)), judge_same, lambda m_, p: {"s": model_value(m_, sv)}, allow_raise=("UnicodeEncodeError",)), replay=lambda w, t=t: {"call": "c19_value", "args": {"ftype": t, "src": repr(w.get("s", "") if isinstance(w.get("s"), str) else "")}}, functions=FU))
     for t, srcs in (("bytes", [b"", b"\x00\xff", bytes(range(256))]), ("boolean", [True, False]), ("float", [0.0, 1.5, -2.25, 16777216.0, 16777218.0, 123456.7890625, 0.333333343267440796, 1.17549435e-38]), ("datetime", TSV)):
         for v in srcs:
             name = f"C19.value[{t}, {v!r}]"
@@ -228,6 +228,33 @@ def build(tier="quick", seed=0):
             name = f"C19.refuse.carry_on[{t} {what}, field {pos}]"
             pack.add(Obligation(name, lambda tier, name=name, t=t, cond=cond, pos=pos: prove_paths(name, th_carry_on(t, cond, pos), lambda p: (p.value == ("raised", [("first", 1), ("third", 3)]), f"refused record between two accepted ones: {p.value[0]}, read back {p.value[1]}"), lambda m_, p: {"x": model_value(m_, x)}),
                                 replay=lambda w, t=t, pos=pos: {"call": "c19_carry_on", "args": {"ftype": t, "pos": pos, "value": w.get("x") if isinstance(w.get("x"), int) else 2**70 if t == "varint" else 2**31}}, functions=FU))
+
+    def th_carry_on_text(pos):
+        """the same with a record whose TEXT cannot be encoded (a lone surrogate passes every type check; Avro text is UTF-8)"""
+        def th():
+            D = it.call(RD, ["c19/t", [("varint", "x"), ("string", "s"), ("uri", "u")] if pos == 1 else [("string", "s"), ("varint", "x"), ("uri", "u")]], {})
+            fp = AbsFile(it, mode="wb")
+            w = it.call(av.g["AvroWriter"], [fp], {})
+            it.call(it.getattr_(w, "write"), [it.call(D, [], {"s": "first", "x": 1, "u": "http://a"})], {})
+            try:
+                it.call(it.getattr_(w, "write"), [it.call(D, [], {"s": "bad \ud800" if pos != 2 else "fine", "x": 2, "u": "http://b/\udfff" if pos == 2 else "http://b"})], {})
+                outcome = "written"
+            except PyRaise as e:
+                outcome = "raised"
+            it.call(it.getattr_(w, "write"), [it.call(D, [], {"s": "third", "x": 3, "u": "http://c"})], {})
+            it.call(it.getattr_(w, "close"), [], {})
+            try:
+                rd = it.call(av.g["AvroReader"], [AbsFile(it, fp.content())], {})
+                back = [(it.unbase(o.attrs["s"]), it.unbase(o.attrs["x"])) for o in it.iterate(rd)]
+            except PyRaise as e:
+                back = f"reading raised {e.cls_name}"
+            return outcome, back
+        return th
+
+    for pos in (0, 1, 2):
+        name = f"C19.refuse.carry_on[text with a lone surrogate, {'in the last (uri) field' if pos == 2 else 'field %d' % pos}]"
+        pack.add(Obligation(name, lambda tier, name=name, pos=pos: prove_paths(name, th_carry_on_text(pos), lambda p: (p.value == ("raised", [("first", 1), ("third", 3)]), f"refused record between two accepted ones: {p.value[0]}, read back {p.value[1]}"), lambda m_, p: {}),
+                            replay=lambda w, pos=pos: {"call": "c19_carry_on_text", "args": {"pos": pos}}, functions=FU))
 
     def th_ts_unrepresentable(iso):
         """a timestamp whose UTC form lies outside years 1..9999 has no timestamp-micros reading: it must be refused, the container stays readable"""
